@@ -306,6 +306,16 @@ def make_hybrid(a):
 def _pml_check(a):
     import warnings
 
+    # history: another profile (leap year, longer horizon) is processed first in the same interpreter - the result for `a`
+    # must not depend on it (the calendar helpers are functions of their arguments)
+    decoy = make_hybrid(dict(a, end_month=max(48, a["end_month"] + 7)))
+    decoy.years = [2020]
+    with warnings.catch_warnings():
+        warnings.simplefilter("ignore")
+        try:
+            decoy.process_month_loads()
+        except Exception:  # noqa: BLE001 - the decoy only creates history
+            pass
     h = make_hybrid(a)
     with warnings.catch_warnings():
         warnings.simplefilter("ignore")
@@ -336,6 +346,17 @@ def _pml_check(a):
             sig = "window-clamped-at-hour-0/same-day" if (m == 1 and dayc == dayh == 0 and (12 + 1 - dc / 2 < 0 or 12 + 1 - dh / 2 < 0)) else "unclamped"
             return False, {"why": f"month {m}: integral {integral} differs from net load {net}", "month": m, "signature": sig, "case": [pc, ph, dc, dh, dayc, dayh], "segments": [[load[k], hour[k]] for k in range(pos + 1, stop + 1)]}
         segs = [(load[k], hour[k] - hour[k - 1]) for k in range(pos + 1, stop + 1)]
+        if ipf and windows_ok_native(m, a, c):
+            if any(hour[k] <= hour[k - 1] for k in range(pos + 1, stop + 1)):
+                return False, {"why": f"month {m}: breakpoints not strictly increasing although the peak windows overlap neither each other nor the month boundaries",
+                               "signature": "breakpoints-not-increasing", "hours": hour[pos:stop + 1]}
+            if dayc != dayh:
+                start_m = cum(m - 1)
+                for p, d, day, sgn in ((pc, dc, dayc, 1.0), (ph, dh, dayh, -1.0)):
+                    want_end = start_m + 1 + 24 * day + 12 + d / 2
+                    if p > 0 and not any(load[k] == sgn * p and abs(hour[k] - want_end) < 1e-9 for k in range(pos + 1, stop + 1)):
+                        return False, {"why": f"month {m}: the pulse of magnitude {sgn * p} does not end at hour {want_end} (noon of the peak day plus half its duration)",
+                                       "signature": "pulse-misplaced", "segments": [[load[k], hour[k]] for k in range(pos + 1, stop + 1)]}
         if ipf:
             for p, d, sgn in ((pc, dc, 1.0), (ph, dh, -1.0)):
                 n_p = sum(1 for (ld, dur) in segs if ld == sgn * p and abs(dur - d) < 1e-9) if p > 0 else 0
